@@ -219,95 +219,110 @@ Definition starts_macro (s : str) : bool :=
 
 Definition has_dollar (s : str) : bool := mem_ascii c_dollar s.
 
-(* Product.resolvePaths (strict=False) *)
+(* Product.resolvePaths (strict=False), in the order of the code: product dir, ups dir,
+   table file, then the one-last-try pass over dir and table *)
+
+Definition res_dir (root : val) (md0 : mdata) (dir : val) : val * mdata :=
+  match dir with
+  | Some d =>
+      if is_real (Some d) && negb (isabs d) then
+        let d1 := if negb (starts_macro d) && negb (none_like root)
+                  then match root with Some r => path_join r d | None => d end
+                  else d in
+        let d2 := resolve_val md0 None d1 in
+        (Some d2, md_set M_PROD_DIR (Some d2) md0)
+      else (Some d, md0)
+  | None => (None, md0)
+  end.
+
+Definition res_ups (dir1 : val) (md1 : mdata) (ups : val) : val * mdata :=
+  match ups with
+  | Some u =>
+      if is_real (Some u) && negb (isabs u) then
+        let u1 := if negb (starts_macro u) && negb (none_like dir1)
+                  then match dir1 with Some d => path_join d u | None => u end
+                  else u in
+        let u2 := resolve_val md1 None u1 in
+        (Some u2, md_set M_UPS_DIR (Some u2) md1)
+      else (Some u, md1)
+  | None => (None, md1)
+  end.
+
+(* the default table name *)
+Definition res_table0 (name : str) (dir1 ups1 table : val) : val :=
+  match table with
+  | None => if nonempty name && (is_real dir1 || is_real ups1)
+            then Some (name ++ s_table_ext) else None
+  | t => t
+  end.
+
+(* the table file and the (possibly defaulted) ups dir *)
+Definition res_table (ex : str -> bool) (root dir1 ups1 : val) (md2 : mdata) (table0 : val)
+  : val * val :=
+  match table0 with
+  | Some t =>
+      if is_real (Some t) && negb (isabs t) then
+        let '(t1, u1) :=
+          if negb (starts_macro t) then
+            let u1 := match ups1, dir1 with
+                      | None, Some d => if is_real dir1 then Some (path_join d s_ups) else ups1
+                      | _, _ => ups1
+                      end in
+            match u1 with
+            | Some u =>
+                if is_real u1 then
+                  let ntable := path_join u t in
+                  if ex ntable then (ntable, u1)
+                  else match root with
+                       | Some (c :: r) =>
+                           let n2table := path_join (c :: r) t in
+                           if ex n2table then (n2table, u1) else (ntable, u1)
+                       | _ => (ntable, u1)
+                       end
+                else
+                  (* ups dir is a placeholder, not None: relative to the product dir *)
+                  match dir1 with
+                  | Some d => if is_real dir1 then (path_join d t, u1) else (t, u1)
+                  | None => (t, u1)
+                  end
+            | None =>
+                (* only reachable when the product dir is not real: nothing to join *)
+                (t, u1)
+            end
+          else (t, ups1) in
+        (Some (resolve_val md2 None t1), u1)
+      else (Some t, ups1)
+  | None => (None, ups1)
+  end.
+
+Definition res_last_dir (md2 : mdata) (dir1 : val) : val * mdata :=
+  match dir1 with
+  | Some d => if is_real dir1 && has_dollar d then
+                let d' := resolve_val md2 (Some M_PROD_DIR) d in
+                (Some d', md_set M_PROD_DIR (Some d') md2)
+              else (dir1, md2)
+  | None => (dir1, md2)
+  end.
+
+Definition res_last_table (md3 : mdata) (table1 : val) : val :=
+  match table1 with
+  | Some t => if is_real table1 && has_dollar t then Some (resolve_val md3 None t) else table1
+  | None => table1
+  end.
+
+Definition md_init (p : product) (root : val) : mdata :=
+  [(M_FLAVOR, Some (p_flavor p)); (M_PROD_ROOT, root); (M_UPS_DB, p_db p)].
+
 Definition resolve_paths (ex : str -> bool) (p : product) : product :=
   let root := stack_root p in
-  let md0 : mdata := [(M_FLAVOR, Some (p_flavor p)); (M_PROD_ROOT, root); (M_UPS_DB, p_db p)] in
-  (* product dir *)
-  let '(dir1, md1) :=
-    match p_dir p with
-    | Some d =>
-        if is_real (Some d) && negb (isabs d) then
-          let d1 := if negb (starts_macro d) && negb (none_like root)
-                    then match root with Some r => path_join r d | None => d end
-                    else d in
-          let d2 := resolve_val md0 None d1 in
-          (Some d2, md_set M_PROD_DIR (Some d2) md0)
-        else (Some d, md0)
-    | None => (None, md0)
-    end in
-  (* ups dir *)
-  let '(ups1, md2) :=
-    match p_ups p with
-    | Some u =>
-        if is_real (Some u) && negb (isabs u) then
-          let u1 := if negb (starts_macro u) && negb (none_like dir1)
-                    then match dir1 with Some d => path_join d u | None => u end
-                    else u in
-          let u2 := resolve_val md1 None u1 in
-          (Some u2, md_set M_UPS_DIR (Some u2) md1)
-        else (Some u, md1)
-    | None => (None, md1)
-    end in
-  (* table file *)
-  let table0 :=
-    match p_table p with
-    | None => if nonempty (p_name p) && (is_real dir1 || is_real ups1)
-              then Some (p_name p ++ s_table_ext) else None
-    | t => t
-    end in
-  let '(table1, ups2) :=
-    match table0 with
-    | Some t =>
-        if is_real (Some t) && negb (isabs t) then
-          let '(t1, u1) :=
-            if negb (starts_macro t) then
-              let u1 := match ups1, dir1 with
-                        | None, Some d => if is_real dir1 then Some (path_join d s_ups) else ups1
-                        | _, _ => ups1
-                        end in
-              match u1 with
-              | Some u =>
-                  if is_real u1 then
-                    let ntable := path_join u t in
-                    if ex ntable then (ntable, u1)
-                    else match root with
-                         | Some (c :: r) =>
-                             let n2table := path_join (c :: r) t in
-                             if ex n2table then (n2table, u1) else (ntable, u1)
-                         | _ => (ntable, u1)
-                         end
-                  else
-                    (* ups dir is a placeholder, not None: relative to the product dir *)
-                    match dir1 with
-                    | Some d => if is_real dir1 then (path_join d t, u1) else (t, u1)
-                    | None => (t, u1)
-                    end
-              | None =>
-                  (* only reachable when the product dir is not real: nothing to join *)
-                  (t, u1)
-              end
-            else (t, ups1) in
-          (Some (resolve_val md2 None t1), u1)
-        else (Some t, ups1)
-    | None => (None, ups1)
-    end in
-  (* one last try *)
-  let '(dir2, md3) :=
-    match dir1 with
-    | Some d => if is_real dir1 && has_dollar d then
-                  let d' := resolve_val md2 (Some M_PROD_DIR) d in
-                  (Some d', md_set M_PROD_DIR (Some d') md2)
-                else (dir1, md2)
-    | None => (dir1, md2)
-    end in
-  let table2 :=
-    match table1 with
-    | Some t => if is_real table1 && has_dollar t then Some (resolve_val md3 None t) else table1
-    | None => table1
-    end in
+  let d1 := res_dir root (md_init p root) (p_dir p) in
+  let u1 := res_ups (fst d1) (snd d1) (p_ups p) in
+  let t0 := res_table0 (p_name p) (fst d1) (fst u1) (p_table p) in
+  let t1 := res_table ex root (fst d1) (fst u1) (snd u1) t0 in
+  let d2 := res_last_dir (snd u1) (fst d1) in
+  let t2 := res_last_table (snd d2) (fst t1) in
   {| p_name := p_name p; p_version := p_version p; p_flavor := p_flavor p;
-     p_dir := dir2; p_table := table2; p_db := p_db p; p_ups := ups2 |}.
+     p_dir := fst d2; p_table := t2; p_db := p_db p; p_ups := snd t1 |}.
 
 (* text after the first n+1 characters: python x[n+1:] *)
 Definition after (n : nat) (x : str) : str := skipn (S n) x.
@@ -315,86 +330,88 @@ Definition after (n : nat) (x : str) : str := skipn (S n) x.
 (* Product.canonicalizePaths.  [fixed = false] is the pinned code: the interned-table test
    is startswith(db) without a separator, and its else branch slices ups_dir instead of the
    table file. *)
+
+(* the block for a missing table file: default table name and ups dir *)
+Definition canon_defaults (p : product) : val * val :=
+  match p_table p with
+  | None =>
+      (if nonempty (p_name p) then Some (p_name p ++ s_table_ext) else None,
+       match p_ups p, p_dir p with
+       | None, Some d => if is_real (p_dir p) then Some (path_join d s_ups) else None
+       | u, _ => u
+       end)
+  | t => (t, p_ups p)
+  end.
+
+Definition strip_dir (dir : val) (t : str) : val :=
+  match dir with
+  | Some d => if is_real dir && starts_with (d ++ [c_slash]) t
+              then Some (after (length d) t) else Some t
+  | None => Some t
+  end.
+
+(* the elif chain: relative to the ups dir if that is real, else to the product dir *)
+Definition strip_rel (dir ups0 : val) (t : str) : val :=
+  match ups0 with
+  | Some u =>
+      if is_real ups0 then
+        (if starts_with (u ++ [c_slash]) t then Some (after (length u) t) else Some t)
+      else strip_dir dir t
+  | None => strip_dir dir t
+  end.
+
+Definition canon_table (fixed : bool) (dir db table0 ups0 : val) : val * val :=
+  match table0 with
+  | Some t =>
+      if is_real table0 && isabs t then
+        match db with
+        | Some dbs =>
+            if is_real db && starts_with (if fixed then dbs ++ [c_slash] else dbs) t then
+              match ups0 with
+              | None => (Some (basename t),
+                         Some (path_join s_UPS_DB (after (length dbs) (dirname t))))
+              | Some u => (Some (path_join s_UPS_DB
+                                   (after (length dbs) (if fixed then t else u))), ups0)
+              end
+            else (strip_rel dir ups0 t, ups0)
+        | None => (strip_rel dir ups0 t, ups0)
+        end
+      else (table0, ups0)
+  | None => (table0, ups0)
+  end.
+
+Definition canon_ups (dir db ups1 : val) : val :=
+  match ups1 with
+  | Some u =>
+      if is_real ups1 && isabs u then
+        let dirS := match dir with Some d => d | None => [] end in
+        let dbS := match db with Some d => d | None => [] end in
+        if is_real dir && starts_with (dirS ++ [c_slash]) u then Some (after (length dirS) u)
+        else if is_real dir && str_eqb u dirS then Some s_none
+        else if is_real db && starts_with (dbS ++ [c_slash]) u
+             then Some (path_join s_UPS_DB (after (length dbS) u))
+        else if is_real db && str_eqb u dbS then Some s_UPS_DB
+        else ups1
+      else ups1
+  | None => ups1
+  end.
+
+Definition canon_dir (rootS : str) (dir : val) : val :=
+  match dir with
+  | Some d => if is_real dir && starts_with (rootS ++ [c_slash]) d
+              then Some (skipn (length rootS + 1) d) else dir
+  | None => None
+  end.
+
 Definition canon_gen (fixed : bool) (p : product) : product :=
   let root := stack_root p in
   if negb (is_real root) then p else
   let rootS := match root with Some r => r | None => [] end in
-  (* default table and ups dir *)
-  let '(table0, ups0) :=
-    match p_table p with
-    | None =>
-        (if nonempty (p_name p) then Some (p_name p ++ s_table_ext) else None,
-         match p_ups p, p_dir p with
-         | None, Some d => if is_real (p_dir p) then Some (path_join d s_ups) else None
-         | u, _ => u
-         end)
-    | t => (t, p_ups p)
-    end in
-  (* table file *)
-  let strip_rel (t : str) : val :=
-    (* the elif chain: relative to the ups dir if that is real, else to the product dir *)
-    match ups0 with
-    | Some u =>
-        if is_real ups0 then
-          (if starts_with (u ++ [c_slash]) t then Some (after (length u) t) else Some t)
-        else
-          match p_dir p with
-          | Some d => if is_real (p_dir p) && starts_with (d ++ [c_slash]) t
-                      then Some (after (length d) t) else Some t
-          | None => Some t
-          end
-    | None =>
-        match p_dir p with
-        | Some d => if is_real (p_dir p) && starts_with (d ++ [c_slash]) t
-                    then Some (after (length d) t) else Some t
-        | None => Some t
-        end
-    end in
-  let '(table1, ups1) :=
-    match table0 with
-    | Some t =>
-        if is_real table0 && isabs t then
-          match p_db p with
-          | Some db =>
-              if is_real (p_db p) &&
-                 starts_with (if fixed then db ++ [c_slash] else db) t then
-                match ups0 with
-                | None => (Some (basename t),
-                           Some (path_join s_UPS_DB (after (length db) (dirname t))))
-                | Some u => (Some (path_join s_UPS_DB
-                                     (after (length db) (if fixed then t else u))), ups0)
-                end
-              else (strip_rel t, ups0)
-          | None => (strip_rel t, ups0)
-          end
-        else (table0, ups0)
-    | None => (table0, ups0)
-    end in
-  (* ups dir *)
-  let ups2 :=
-    match ups1 with
-    | Some u =>
-        if is_real ups1 && isabs u then
-          let dirS := match p_dir p with Some d => d | None => [] end in
-          let dbS := match p_db p with Some d => d | None => [] end in
-          if is_real (p_dir p) && starts_with (dirS ++ [c_slash]) u then Some (after (length dirS) u)
-          else if is_real (p_dir p) && str_eqb u dirS then Some s_none
-          else if is_real (p_db p) && starts_with (dbS ++ [c_slash]) u
-               then Some (path_join s_UPS_DB (after (length dbS) u))
-          else if is_real (p_db p) && str_eqb u dbS then Some s_UPS_DB
-          else ups1
-        else ups1
-    | None => ups1
-    end in
-  (* product dir *)
-  let dir1 :=
-    match p_dir p with
-    | Some d => if is_real (p_dir p) && starts_with (rootS ++ [c_slash]) d
-                then Some (skipn (length rootS + 1) d) else p_dir p
-    | None => None
-    end in
+  let d0 := canon_defaults p in
+  let t1 := canon_table fixed (p_dir p) (p_db p) (fst d0) (snd d0) in
   {| p_name := p_name p; p_version := p_version p; p_flavor := p_flavor p;
-     p_dir := dir1; p_table := table1; p_db := p_db p; p_ups := ups2 |}.
+     p_dir := canon_dir rootS (p_dir p); p_table := fst t1; p_db := p_db p;
+     p_ups := canon_ups (p_dir p) (p_db p) (snd t1) |}.
 
 Definition canonicalize_paths : product -> product := canon_gen true.
 
